@@ -2,6 +2,7 @@ package props
 
 import (
 	"fmt"
+	"go/token"
 	"strings"
 	"verifsa/internal/paths"
 
@@ -103,6 +104,75 @@ func runC15(c *core.Ctx) {
 				}
 			}
 			return true, ""
+		}
+		// the hand-written rendering: s := strconv.FormatUint(uint64(num), 10); if len(s) < 10 { s = strings.Repeat("0", 10-len(s)) + s }
+		if ph, isPhi := text.(*ssa.Phi); isPhi && len(ph.Edges) == 2 {
+			isLenOf := func(v, of ssa.Value) bool {
+				call, ok := v.(*ssa.Call)
+				if !ok {
+					return false
+				}
+				bi, ok := call.Call.Value.(*ssa.Builtin)
+				return ok && bi.Name() == "len" && call.Call.Args[0] == of
+			}
+			for i := 0; i < 2; i++ {
+				raw, padded := ph.Edges[i], ph.Edges[1-i]
+				rawPred, padPred := ph.Block().Preds[i], ph.Block().Preds[1-i]
+				rc, ok := raw.(*ssa.Call)
+				if !ok || rc.Call.StaticCallee() == nil || rc.Call.StaticCallee().Pkg == nil || rc.Call.StaticCallee().Pkg.Pkg.Path() != "strconv" || rc.Call.StaticCallee().Name() != "FormatUint" {
+					continue
+				}
+				if b, isK := constInt(rc.Call.Args[1]); !isK || b != 10 {
+					return false, "the number is not rendered in base 10"
+				}
+				arg := strip(rc.Call.Args[0])
+				if bt, isB := arg.Type().Underlying().(*types.Basic); !isB || (bt.Kind() != types.Uint32 && bt.Kind() != types.Uint16 && bt.Kind() != types.Uint8) {
+					return false, "the formatted value is not a 32-bit unsigned quantity (may print more than ten digits)"
+				}
+				if arg != num {
+					return false, "the number formatted (" + role(plain, arg) + ") is not the wire value (" + role(plain, num) + ")"
+				}
+				cat, ok := padded.(*ssa.BinOp)
+				if !ok || cat.Op != token.ADD || cat.Y != raw {
+					return false, "the short rendering is not left-padded"
+				}
+				rep, ok := cat.X.(*ssa.Call)
+				if !ok || rep.Call.StaticCallee() == nil || rep.Call.StaticCallee().Pkg == nil || rep.Call.StaticCallee().Pkg.Pkg.Path() != "strings" || rep.Call.StaticCallee().Name() != "Repeat" {
+					return false, "the short rendering is not left-padded with strings.Repeat"
+				}
+				if z, isK := rep.Call.Args[0].(*ssa.Const); !isK || constantString(z) != "0" {
+					return false, "the padding character is not '0'"
+				}
+				sub, ok := rep.Call.Args[1].(*ssa.BinOp)
+				if !ok || sub.Op != token.SUB || !isLenOf(sub.Y, raw) {
+					return false, "the padding length is not 10-len(s)"
+				}
+				if k, isK := constInt(sub.X); !isK || k != 10 {
+					return false, "the padding length is not 10-len(s)"
+				}
+				// guard: padded exactly when len(s) < 10
+				if len(padPred.Preds) != 1 || padPred.Preds[0] != rawPred {
+					return false, "the padding is not applied under `len(s) < 10`"
+				}
+				ifi, ok := rawPred.Instrs[len(rawPred.Instrs)-1].(*ssa.If)
+				if !ok || rawPred.Succs[0] != padPred || rawPred.Succs[1] != ph.Block() {
+					return false, "the padding is not applied under `len(s) < 10`"
+				}
+				cmp, ok := ifi.Cond.(*ssa.BinOp)
+				if !ok {
+					return false, "the padding is not applied under `len(s) < 10`"
+				}
+				k1, isK1 := constInt(cmp.Y)
+				k2, isK2 := constInt(cmp.X)
+				switch {
+				case cmp.Op == token.LSS && isLenOf(cmp.X, raw) && isK1 && k1 == 10:
+				case cmp.Op == token.LEQ && isLenOf(cmp.X, raw) && isK1 && k1 == 9:
+				case cmp.Op == token.GTR && isLenOf(cmp.Y, raw) && isK2 && k2 == 10:
+				default:
+					return false, "the padding is not applied under `len(s) < 10`"
+				}
+				return true, ""
+			}
 		}
 		call, isC := text.(*ssa.Call)
 		if !isC || call.Call.StaticCallee() == nil {
